@@ -79,6 +79,12 @@ class Runner:
             qn.add(srt[g][:-1])           # proper prefix
             qn.add(srt[g] + "x")          # proper extension
             qn.add(srt[g].lower())
+            # an absent name with the same djb2 hash as a present one: h(p + c1 c2) == h(p + (c1+1)(c2-33))
+            nm = srt[g]
+            if len(nm) >= 2 and ord(nm[-1]) - 33 >= 33:
+                col = nm[:-2] + chr(ord(nm[-2]) + 1) + chr(ord(nm[-1]) - 33)
+                if djb2(col) == djb2(nm):
+                    qn.add(col)
         qn.update(reg.get("extra_names", []))
         for nm in sorted(qn):
             queries.append(("name", nm))
@@ -228,7 +234,7 @@ def run(ctx):
     ctx.rule = ("registries of size 0..40 from the shipped zones of each database: sorted prefix, sorted tail, sorted random "
                 "subset, shuffled subsets, sorted with first / last pair swapped, and the two full registries; queries: every "
                 "present name, an absent name inside every gap (prev+'!'), below the first, above the last, empty, proper "
-                "prefixes/extensions, every present id, 0, 0xFFFFFFFF, id+-1, indices 0..n+1, 255, 256, 0xFFFF, plus "
+                "prefixes/extensions, an absent name with the same djb2 hash as each present name, every present id, 0, 0xFFFFFFFF, id+-1, indices 0..n+1, 255, 256, 0xFFFF, plus "
                 "Hypothesis-drawn byte strings; each through indexFor*/createFor*. Non-trivial = distinct (size, shape, gap "
                 "index) of absent names on sorted registries of size >= 6 (the binary-search path)")
     drv.close()
